@@ -24,8 +24,8 @@ CHECKS = {
   note="Trusted: the per-opcode operand-kind table in harness/c03/operand_kinds.go (read from each opcode's Assembler), numeric comparison of operands. Shared-object opcodes are covered with generated Shared_constraints.",
   technique="property-based testing (rapid): round-trip and range-rejection oracles over generated architectures and lines; native go fuzz"),
  "C04": dict(
-  text="Property-based testing of the handshake in the simulator world: generated producer/consumer programs (strictly increasing counter, nop padding, fan-out 1..3, fixed per-opcode delays, environment stalls, back-to-back writes) run on bondmachine.VM; after every tick each consumer's captured sequence must be a prefix of the offered sequence and the producer must not move past a write a consumer has not captured. Two genuine defects (D4, D5) are recorded as known findings, recognised by precondition monitors and excluded so search continues behind them. The generated-hardware world is added once /verif's Verilog interpreter is in place.",
-  note="Trusted: observation at the processors (PC leaving i2rw/r2owa, register values), the precondition monitors that classify D4/D5. Hardware world not yet covered by this check.",
+  text="Property-based testing of the handshake in the simulator world: generated producer/consumer programs (strictly increasing counter, nop padding, fan-out 1..3, fixed per-opcode delays, environment stalls, back-to-back writes) run on bondmachine.VM; after every tick each consumer's captured sequence must be a prefix of the offered sequence and the producer must not move past a write a consumer has not captured. Two genuine defects (D4, D5) are recorded as known findings, recognised by precondition monitors and excluded so search continues behind them. The same machines and invariant are run in the generated-hardware world (files of Bondmachine.Write_verilog under /verif's Verilog interpreter, observation at the processors' _pc/_rN); the hardware shares D4 (recorded as D4h).",
+  note="Trusted: observation at the processors (PC leaving i2rw/r2owa, register values), the precondition monitors that classify D4/D4h/D5 (a duplicate is excused only by D4, a loss only by D5), /verif's Verilog interpreter for the hardware world.",
   technique="property-based testing (rapid) with a history invariant checked every tick; known-finding monitors"),
  "C08": dict(
   text="Property-based testing of the number library: (a) strings generated from every notation's regular language (plus mutations and a corpus) are run through every matcher: at most one may accept; (b) export/import round-trip on bits, type and width for every supported type and boundary-weighted values, ExportBinaryNBits/ExportVerilogBinary width laws; (c) sized literals import to the stated width or are rejected. Native fuzzing of ImportString in the thorough tier. Found D2 and the sized-hex storage defect (both fixed) and four round-trip defects recorded as known findings.",
